@@ -7,7 +7,9 @@
 
    failed = "mode@k" for every bzr:// run whose step k is the first that differs from the local run - THE PROPERTY:
             same returned values, same stored state, after every operation;
-   drift  = some run differs from BranchOps!Run(acts) (conformance; at / mode / want describe the first such step). *)
+   drift  = the run on the local path differs from BranchOps!Run(acts): the specification is not what the code does
+            on either path (conformance; at / want describe the first such step).  A bzr:// run that differs from a
+            local run that is as specified is a failure, not drift. *)
 EXTENDS BranchOps, TLC, Json, IOUtils
 Rows == JsonDeserialize(IOEnv.VF_IN)
 VARIABLE i
@@ -23,7 +25,7 @@ Judge(k) ==
     LET row == Rows[k]
         spec == Run(row.acts)
         want == [s \in DOMAIN spec |-> Want(spec[s])]
-        off == {j \in DOMAIN row.runs : DiffSteps(want, row.runs[j][2]) # {}}
+        off == {j \in {1} : DiffSteps(want, row.runs[j][2]) # {}}
         j0 == Min(off)
         k0 == Min(DiffSteps(want, row.runs[j0][2]))
     IN [row |-> k,
